@@ -37,6 +37,14 @@ ASSUMPTIONS = [
     "exception classes raised by the parser are not distinguished: any exception from parse_dynamic is 'rejected'",
     "multi-identifier ReadDataByIdentifier answers are attributed to the first identifier (by design, bytes kept)",
     "DTC-and-status lists are exposed as a dict: a list with a repeated DTC has no lossless typed view (oracle rejects)",
+    "constructor side: 'constructed' = __init__ accepts AND .pdu can be computed (a value struct.pack / int.to_bytes refuses later puts "
+    "nothing on the wire and counts as refused); exception classes are not distinguished",
+    "constructor side, typed domain: enum parameters (UDSErrorCodes, DTCFormatIdentifier) range over the enum members, dict parameters "
+    "over real dicts (no repeated keys), parameters annotated `int` are never None, bytes parameters are bytes",
+    "constructor side: `exposed r = f` for canonical calls (construct_exposes) is not proved in Lean; it is compared on every generated "
+    "canonical call (object's own attributes vs the attributes parse_dynamic exposes for its PDU)",
+    "the range / width checks inside Model/UdsRespCtor.lean `construct` are literals tied to the code by the differential run on both "
+    "sides of every bound, not by a regenerated table (regenerated: parameter lists and annotations, convenience-class parameters)",
 ]
 
 # ---------------------------------------------------------------------------------------------------------
@@ -923,6 +931,55 @@ def replay(ctx, case):
     load_rows()
     S = _svc()
     c = case.get("case", case)
+    if "call" in c:
+        from lib import c02ctor  # noqa: F401
+
+        line = c["call"]
+        m = ctx.lean([line])[0]
+        print("call   :", line)
+        print("model  :", m)
+        toks = line.split(" ")
+        cls = getattr(S, toks[1])
+
+        def tok(t):
+            if t == "none":
+                return None
+            if t in ("-", "e"):
+                return b""
+            try:
+                return int(t)
+            except ValueError:
+                return bytes.fromhex(t)
+
+        try:
+            if toks[0] == "conv":
+                args = (int(toks[2]), tok(toks[3]) or b"")
+            else:
+                form, a = toks[2], toks[3:]
+                if form == "rdbi":
+                    args = ([int(x) for x in a[0].split(",")] if a[0] != "-" else [], [tok(x) for x in a[1].split(",")] if a[1] != "-" else [])
+                elif form == "dtcListD":
+                    args = (int(a[0]), {int(k): int(v) for k, v in (x.split(":") for x in a[1].split(","))} if a[1] != "-" else {})
+                elif form in ("dtcExtT", "dtcExtB"):
+                    d = {int(k): tok(v) for k, v in (x.split(":") for x in a[-1].split(","))} if a[-1] != "-" else {}
+                    args = ((int(a[0]), int(a[1])), d) if form == "dtcExtT" else (tok(a[0]), d)
+                elif form == "neg":
+                    from gallia.services.uds.core.constants import UDSErrorCodes
+                    args = (int(a[0]), UDSErrorCodes(int(a[1])))
+                elif form == "dtcCount":
+                    from gallia.services.uds.core.constants import DTCFormatIdentifier
+                    args = (int(a[0]), DTCFormatIdentifier(int(a[1])), int(a[2]))
+                else:
+                    args = tuple(tok(x) for x in a)
+            iv = _ctor_eval(cls, args, False)
+        except Exception as e:  # noqa: BLE001
+            iv = "none"
+            print("raised :", repr(e))
+        print("impl   :", iv if iv == "none" else f"pdu={iv[0]} parsed back by gallia: {iv[2]}")
+        bad = iv != "none" and (not iv[2].startswith("ok ") or _parse_view(iv[2])[3] != iv[0])
+        print("verdict:", "accepted by the constructor, but its own parser rejects / changes / keeps raw the PDU" if bad else
+              ("agree" if (iv == "none") == (m == "none") and (iv == "none" or iv[2] == m) else "model and code differ"))
+        return int(bad or not ((iv == "none") == (m == "none") and (iv == "none" or iv[2] == m)))
     if "pdu" not in c:
         print(case)
         return 0
@@ -958,10 +1015,19 @@ MANIFEST = {
                    "code by a correspondence run of the real UDSResponse.parse_dynamic / .pdu: valid responses of every "
                    "registry class from an independent ISO builder, all byte strings of length <= 3 per response id "
                    "(exhaustive in the thorough tier), mutated neighbours, constructed objects, and <Response>.from_pdu of every "
-                   "concrete response class."),
+                   "concrete response class. Constructor side (Model/UdsRespCtor.lean): `construct : class -> fields -> Option Resp` "
+                   "with the validity checks of every response class's __init__ / .pdu; proved for every class and every accepted "
+                   "field valuation: the PDU parses back as exactly the constructed object (construct_pdu_parses_back), it satisfies "
+                   "the class's length rule and sub-function gate and is never raw (construct_pdu_wf, construct_wf), equal bytes "
+                   "imply equal objects (construct_injective_partial); parameter lists / annotations and the convenience-class "
+                   "control parameters are regenerated from the live classes and proved equal to the model's. Tied by generated "
+                   "constructor calls on the live classes (valid, both sides of every range / width bound, negative, empty and "
+                   "wrong-length payloads, multi-identifier and multi-record forms): accepted / refused, PDU bytes, the attributes "
+                   "gallia's own parser exposes for that PDU, and the object's own attributes."),
     "level_note": ("Trusted: Lean kernel (axioms propext, Quot.sound, Classical.choice), the registry translator, the "
                    "harness; struct / int.to_bytes contracts. Exception classes are not distinguished (any exception = "
-                   "rejected)."),
+                   "rejected). Constructor side: enum / dict / int-not-None typed domain; `exposed r = f` is compared, not proved; the "
+                   "range literals of `construct` are tied differentially."),
     "technique": "Lean 4 proof (case analysis over parser families, big-endian lemmas) + regenerated registry tables + differential correspondence against the real parser",
     "design_ref": "DESIGN.md section 7, C02",
 }
